@@ -52,8 +52,16 @@ func propC19(c *Ctx) propInfo {
 		}, nil, "")
 		c.boundsAtSuccess("E8.bounds", pl, 0, "len(payload bytes)", lenOf(nil), 32, 32)
 	}
+	// the signed item has no length prefix for the address: createMessage hashes whatever
+	// convertTonProofMessage decoded, so the 32-byte length is enforced by the account parser that
+	// CheckProof runs on the same string (an over-long address would let the address/domain boundary move)
+	if f := c.mustFn(R, "ton", "AccountIDFromRaw"); f != nil {
+		c.boundsAtSuccess("E8.bounds", f, 1, "len(address bytes)", lenOf(func(v ssa.Value) bool {
+			return derivesFrom(v, callResult("encoding/hex.DecodeString"), false)
+		}), 32, 32)
+	}
 	c.floor(R, 10)
-	c.floor("E8.bounds", 1)
+	c.floor("E8.bounds", 2)
 	// E1: no crash from the entry points that see attacker-supplied proofs
 	roots := c.rootsByName("E1.roots", "tonconnect:Server.CheckProof", "tonconnect:Server.CheckPayload", "tonconnect:ParseStateInit",
 		"tonconnect:convertTonProofMessage", "tonconnect:compareStateInitWithAddress", "tonconnect:createMessage", "tonconnect:signatureVerify")
